@@ -347,6 +347,38 @@ class Ctx:
             return True
         return False
 
+    def tight_bounds(self, e):
+        """bounds(e) tightened, for a single symbol, by the constraints that mention only that symbol"""
+        lo, hi = self.bounds(e)
+        if len(e[1]) != 1:
+            return (lo, hi)
+        s, k = e[1][0]
+        if k not in (1, -1):
+            return (lo, hi)
+        slo = shi = None
+        for c in self.cons + self.hyps:
+            if len(c[1]) == 1 and c[1][0][0] == s:
+                kk = c[1][0][1]             # c0 + kk*s <= 0
+                if kk > 0:
+                    b = (-c[0]) // kk
+                    shi = b if shi is None else min(shi, b)
+                elif kk < 0:
+                    # s >= c0 / (-kk), rounded up
+                    num, den = c[0], -kk
+                    b = -((-num) // den)
+                    slo = b if slo is None else max(slo, b)
+        if k == 1:
+            elo = None if slo is None else e[0] + slo
+            ehi = None if shi is None else e[0] + shi
+        else:
+            elo = None if shi is None else e[0] - shi
+            ehi = None if slo is None else e[0] - slo
+        if elo is not None:
+            lo = elo if lo is None else max(lo, elo)
+        if ehi is not None:
+            hi = ehi if hi is None else min(hi, ehi)
+        return (lo, hi)
+
     def bounds(self, e):
         """(lo, hi) of expression e under the conjunction using a cheap search: tries to prove
         candidate bounds; returns interval from ranges only (fast path)."""
